@@ -54,6 +54,7 @@ func init() {
 				}
 			}},
 			{ID: "C14.R12", Floor: 2, Doc: "the caller that inserted the in-flight entry starts the preparing goroutine on every path (no return between the insertion and the go statement)", Run: c14WinnerStarts},
+			{ID: "C14.R13", Floor: 1, Doc: "parseFrame hands a server ERROR answer back as a frame, never as its error result: the executors' UNPREPARED case stays reachable", Run: c14ErrorFrameIsFrame},
 			{ID: "C14.R10", Floor: 1, Doc: "lru Get moves the entry to the front on every path that reports a hit", Run: c14r10},
 		},
 	})
